@@ -33,7 +33,8 @@ def rule_roles(ck, repo, R):
             call = next(c for c in ast.walk(st) if isinstance(c, ast.Call) and src(c.func) == 'mso.sort')
             key = next((src(k.value) for k in call.keywords if k.arg == 'key'), None)
             from .r_query import dnf as _dnf, simplify as _simplify
-            same_test = _simplify(_dnf(st.test)) == _simplify(_dnf(ast.parse("not format_spec or '!c' not in format_spec", mode='eval').body))
+            from .astutil import expand_locals as _xl0
+            same_test = _simplify(_dnf(_xl0(st.test, f.node))) == _simplify(_dnf(ast.parse("not format_spec or '!c' not in format_spec", mode='eval').body))
             ck.decide(same_test and key == 'itemgetter(1)', R, 'writer:sort', (test, key),
                       f'per-role sort runs under `{test}` with key {key}; expected: unless "!c", by the molecule string', file=f.file, line=st.lineno, func=f.qualname)
     ck.decide(sort_idx is not None, R, 'writer:sort-present', None, 'molecules of a role are no longer sorted by their strings: the reaction string depends on molecule order',
@@ -172,7 +173,9 @@ def rule_sides(ck, repo, R):
     ck.decide(len(fa) == 1 and [src(a) for a in fa[0].args] == ['self._atoms[n]', 'other._atoms[n]'], R, 'common:atoms', [src(a) for a in fa[0].args] if fa else None,
               'common atoms are no longer built as from_atoms(self atom, other atom)', file=f.file, line=f.lineno)
     db = [c for c in ast.walk(f.node) if isinstance(c, ast.Call) and src(c.func) == 'DynamicBond' and [src(a) for a in c.args] == ['o1', 'o2']]
-    unp = [n for n in ast.walk(f.node) if isinstance(n, ast.For) and 'adj[n].items()' in src(n.iter)]
+    from .astutil import expand_locals as _xl, single_defs as _sd
+    _rows = {k for k, v in _sd(f.node).items() if isinstance(v, ast.Subscript)}  # an = adj[n]
+    unp = [n for n in ast.walk(f.node) if isinstance(n, ast.For) and 'adj[n].items()' in src(_xl(n.iter, f.node, only=_rows))]
     ck.decide(len(db) == 1 and unp and '(o1, o2)' in src(unp[0].target), R, 'common:bond', None, 'common bonds are no longer DynamicBond(reactant order, product order)', file=f.file, line=f.lineno)
     # from_atoms puts atom1 into the reactant fields
     fr = repo.func('chython.periodictable.base.dynamic:DynamicElement.from_atoms')
